@@ -16,6 +16,7 @@ from typing import Any, Callable, Dict, List, Optional
 
 ROOT = os.path.dirname(os.path.dirname(os.path.abspath(__file__)))
 EXIT_OK, EXIT_VIOLATION, EXIT_HARNESS = 0, 1, 2
+MAX_REPLAYS = int(os.environ.get("VERIF_MAX_REPLAYS", "12"))
 
 
 @dataclasses.dataclass
@@ -195,6 +196,8 @@ def run_property(pid: str, tier: str, seed: int, jobs: int = 16, only: Optional[
     samples = []
     tot = dict(paths=0, nontrivial=0, queries=0, solver_s=0.0, unsat=0, sat=0, unknown=0, atoms=0)
     obmap = {o.name: o for o in obs}
+    n_replayed = 0
+    suppressed = 0
     for r in results:
         o = per_ob.setdefault(
             r["ob"],
@@ -239,6 +242,11 @@ def run_property(pid: str, tier: str, seed: int, jobs: int = 16, only: Optional[
         for k in r.get("known_hits", []):
             known_hits.append((r["ob"], k))
         for vi, v in enumerate(r["violations"]):
+            if violations >= 1 and n_replayed >= MAX_REPLAYS:
+                # the verdict (exit 1) is already settled by a confirmed violation
+                suppressed += 1
+                continue
+            n_replayed += 1
             rec = dict(property=pid, obligation=r["ob"], param=r["param"], label=v["label"],
                        models=v["models"], kind=v.get("kind"), traceback=v.get("traceback"),
                        schedule=v.get("schedule"))
@@ -265,6 +273,8 @@ def run_property(pid: str, tier: str, seed: int, jobs: int = 16, only: Optional[
                 nonrepro.append(fn)
                 o["inconclusive"] += 1
                 print(f"NONREPRODUCING property={pid} obligation={r['ob']} atom={v['label']!r} replay={fn} (model did not reproduce on the real code in binary64; obligation inconclusive)")
+    if suppressed:
+        print(f"NOTE property={pid}: {suppressed} further counterexample candidates were not replayed (cap {MAX_REPLAYS}); the obligations they belong to count as inconclusive")
     seen = set()
     for obn, kf in known_hits:
         key = kf.get("id") or kf.get("what")
